@@ -168,6 +168,12 @@ def make_policy(p: dict | None, step_name: str) -> Any:
     elif kind == "before_delay":
         # gives up when the NEXT sleep would end past the budget: elapsed + upcoming delay >= d
         inner = mk_retry_policy(stop=RP.stop_before_delay(p["d"]), wait=RP.wait_fixed(p.get("wait", 1)))
+    elif kind == "delay_any":
+        # composed: gives up at the first of (d seconds since the first attempt, n failures)
+        inner = mk_retry_policy(stop=RP.stop_any(RP.stop_after_delay(p["d"]), RP.stop_after_attempt(p["n"])), wait=RP.wait_fixed(p.get("wait", 1)))
+    elif kind == "delay_all":
+        # composed: gives up once BOTH d seconds have elapsed since the first attempt and n failures are on record
+        inner = mk_retry_policy(stop=RP.stop_all(RP.stop_after_delay(p["d"]), RP.stop_after_attempt(p["n"])), wait=RP.wait_fixed(p.get("wait", 1)))
     elif kind == "chain":
         inner = mk_retry_policy(stop=RP.stop_after_attempt(p["n"]), wait=RP.wait_chain(*[RP.wait_fixed(w) for w in p["waits"]]))
     elif kind == "chain_exp":
@@ -686,8 +692,9 @@ def _runner_info(run: Run) -> dict:
 
 
 def run_spec(spec: dict, seed: int, replay_actions: list[int] | None = None, max_time: float = 100000.0,
-             resume_from: dict | None = None) -> Trace:
-    """Run one scripted workflow to completion (or deadlock) and return its trace."""
+             resume_from: dict | None = None, start_time: float = 1000.0) -> Trace:
+    """Run one scripted workflow to completion (or deadlock) and return its trace.
+    `start_time`: reading of the virtual clock when the run begins (a resumed run begins later than the run it continues)."""
     install_observers()
     rng = random.Random(seed)
     run = Run(spec, rng, replay_actions)
@@ -782,7 +789,7 @@ def run_spec(spec: dict, seed: int, replay_actions: list[int] | None = None, max
                 run.trace.drained_until = loop.time()
 
         try:
-            run_virtual(main, max_time=max_time, hook_factory=hook_factory)
+            run_virtual(main, start=start_time, max_time=max_time, hook_factory=hook_factory)
         except TimeoutError:
             run.trace.deadlock = True
             run.trace.outcome = ("deadlock", None)
